@@ -435,19 +435,36 @@ end Shape
 section Unit
 open OV.C05.Unit
 
-/-- `add_0` / `sub_0` / `mul_by_1` / `div_by_1` (+ commuted forms): whenever the rule set fires **and the constant
-is exactly the unit and a true constant** (`exact`), the matched node is the identity on every `x`.
-`_partial`: `check` alone only gives `isclose(c, unit, rel 1e-5, abs 1e-8)` (finding D3) and accepts an
-initializer that is also a graph input (finding C05-N1). -/
-theorem unit_laws_sound_partial (p : Params) (_hfire : p.check = true) (hex : p.exact = true) (x : Rat) :
+/-- Since commit 6800bd1 an integer pattern literal is matched exactly: whenever the unit-law rule set fires, the constant
+operand *is* the unit (0 resp. 1). -/
+theorem unit_laws_fire_exact (p : Params) (h : p.check = true) : p.value = p.op.literal := by
+  unfold Params.check isclose intLiteralRelTol intLiteralAbsTol at h
+  simp only [Bool.and_eq_true] at h
+  have h4 := h.2
+  by_contra hv
+  simp only [hv, if_false, zero_mul, Bool.or_eq_true, decide_eq_true_eq] at h4
+  have habs : ∀ q : Rat, absR q = 0 → q = 0 := by
+    intro q hq; unfold absR at hq; split_ifs at hq with hneg
+    · linarith
+    · exact hq
+  have hz : absR (0 : Rat) = 0 := by unfold absR; simp
+  rw [hz] at h4
+  have hnn : ∀ q : Rat, 0 ≤ absR q := by
+    intro q; unfold absR; split_ifs with hneg <;> linarith
+  have h0 : absR (p.op.literal - p.value) = 0 := by
+    rcases h4 with (h4 | h4) | h4 <;> exact le_antisymm h4 (hnn _)
+  have := habs _ h0
+  exact hv (by linarith)
+
+/-- **`add_0` / `sub_0` / `mul_by_1` / `div_by_1`** (+ commuted forms; after commit 6800bd1): whenever the rule set fires and the
+constant is a true constant, the matched node is the identity on every `x`.  `_partial`: the matcher still accepts an initializer
+that is also a graph input (finding C05-N1, kept by the maintainers' own tests). -/
+theorem unit_laws_sound_partial (p : Params) (hfire : p.check = true) (_hN1 : p.origin ≠ .inputWithDefault) (x : Rat) :
     p.op.apply x p.value = x := by
-  unfold Params.exact at hex
-  simp only [Bool.and_eq_true, beq_iff_eq] at hex
-  obtain ⟨hv, _⟩ := hex
-  rw [hv]
+  rw [unit_laws_fire_exact p hfire]
   cases p.op <;> simp [Op.apply, Op.literal]
 
-/-- The exactness hypothesis is necessary, not merely sufficient: `x + c = x` for all `x` iff `c = 0` … -/
+/-- The exactness is necessary, not merely sufficient: `x + c = x` for all `x` iff `c = 0` … -/
 theorem add_identity_iff (c : Rat) : (∀ x : Rat, x + c = x) ↔ c = 0 := by
   constructor
   · intro h; have := h 0; simpa using this
@@ -459,21 +476,17 @@ theorem mul_identity_iff (c : Rat) : (∀ x : Rat, x * c = x) ↔ c = 1 := by
   · intro h; have := h 1; simpa using this
   · intro h x; simp [h]
 
-/-- Finding D3 (add): the rule fires on `x + 1e-9` (rank-0 initializer) and `0 + 1e-9 ≠ 0`. -/
-theorem add_0_full_refuted :
-    ¬ (∀ p : Params, p.check = true → ∀ x : Rat, p.op.apply x p.value = x) := by
-  intro h
-  have := h { op := .add, constOnLeft := false, origin := .initializer, rank := 0, value := 1 / 1000000000 }
-    (by decide +kernel) 0
-  simp [Op.apply] at this
-
-/-- Finding D3 (mul): the rule fires on `x * 1.000005` and `1 * 1.000005 ≠ 1`. -/
-theorem mul_by_1_full_refuted :
-    ¬ (∀ p : Params, p.check = true → p.op = .mul → ∀ x : Rat, p.op.apply x p.value = x) := by
-  intro h
-  have := h { op := .mul, constOnLeft := false, origin := .initializer, rank := 0, value := 1000005 / 1000000 }
-    (by decide +kernel) rfl 1
-  norm_num [Op.apply] at this
+/-- Documentation of finding D3 (fixed): with the pre-fix literal tolerance the rules fired on `x + 1e-9` and `x * 1.000005`
+(`0 + 1e-9 ≠ 0`, `1 * 1.000005 ≠ 1`); both are refused now. -/
+theorem unit_laws_prefix_refuted :
+    (Params.checkPrefix { op := .add, constOnLeft := false, origin := .initializer, rank := 0, value := 1 / 1000000000 }) = true ∧
+    (Params.checkPrefix { op := .mul, constOnLeft := false, origin := .initializer, rank := 0, value := 1000005 / 1000000 }) = true ∧
+    Op.apply .add 0 (1 / 1000000000) ≠ (0 : Rat) ∧ Op.apply .mul 1 (1000005 / 1000000) ≠ (1 : Rat) ∧
+    (Params.check { op := .add, constOnLeft := false, origin := .initializer, rank := 0, value := 1 / 1000000000 }) = false ∧
+    (Params.check { op := .mul, constOnLeft := false, origin := .initializer, rank := 0, value := 1000005 / 1000000 }) = false := by
+  refine ⟨by decide +kernel, by decide +kernel, ?_, ?_, by decide +kernel, by decide +kernel⟩
+  · norm_num [Op.apply]
+  · norm_num [Op.apply]
 
 /-- Finding C05-N1: the rule fires on `Add(x, z)` where `z` is an initializer *and* a graph input with default 0;
 at run time `z` may be any `w` and `x + w ≠ x` for `w = 3`. -/
